@@ -4,7 +4,7 @@
 From Base Require Import Prelude.
 From C14 Require Import Dom Tables Model Spec.
 From C15 Require Import Spec Proofs.
-From C15 Require Run.  (* compile order only: Properties.v is built last, so that no other file's
+From C15 Require Run NonVacuity.  (* compile order only: Properties.v is built last, so that no other file's
                           progress line interleaves with the Print Assumptions reports *)
 
 (** Sanitizing sanitized output removes and rewrites nothing — for every configuration whose
